@@ -126,27 +126,31 @@ def okForInit (sig : Sig) (vty : Var → Ty) : ForInit → Bool
   | .defs ds => ds.all fun d => okVarDef sig vty d.1 d.2
 
 mutual
-/-- statements the type checker accepted inside a function returning `rt` -/
-def wtStmt (sig : Sig) (vty : Var → Ty) (rt : Ty) : Stmt → Bool
+/-- statements the type checker accepted inside a function returning `rt`; `lt` = the type of the controlling
+expression when the statement sits directly in the block of a `switch` (labels are only accepted there) -/
+def wtStmt (sig : Sig) (vty : Var → Ty) (rt : Ty) (lt : Option Ty) : Stmt → Bool
   | .expr e => okExpr sig vty e
   | .var id init => okVarDef sig vty id init
-  | .block b => wtStmts sig vty rt b
-  | .ifThen c b => okExpr sig vty c && wtStmts sig vty rt b
-  | .ifElse c t f => okExpr sig vty c && wtStmts sig vty rt t && wtStmts sig vty rt f
-  | .for init cond inc b => okForInit sig vty init && okOpt sig vty cond && okOpt sig vty inc && wtStmts sig vty rt b
-  | .while c b => okExpr sig vty c && wtStmts sig vty rt b
-  | .doWhile b c => wtStmts sig vty rt b && okExpr sig vty c
+  | .block b => wtStmts sig vty rt none b
+  | .ifThen c b => okExpr sig vty c && wtStmts sig vty rt none b
+  | .ifElse c t f => okExpr sig vty c && wtStmts sig vty rt none t && wtStmts sig vty rt none f
+  | .for init cond inc b => okForInit sig vty init && okOpt sig vty cond && okOpt sig vty inc && wtStmts sig vty rt none b
+  | .while c b => okExpr sig vty c && wtStmts sig vty rt none b
+  | .doWhile b c => wtStmts sig vty rt none b && okExpr sig vty c
   | .break => true
   | .continue => true
   | .ret none => true
   | .ret (some e) => okExprT sig vty rt e
-def wtStmts (sig : Sig) (vty : Var → Ty) (rt : Ty) : Stmts → Bool
+  | .switch T c b => okExprT sig vty T c && decide (T ≠ .lit) && wtStmts sig vty rt (some T) b
+  | .caseLabel c => decide (lt = some c.ty) || (decide (c.ty = .lit) && lt.isSome)
+  | .defaultLabel => lt.isSome
+def wtStmts (sig : Sig) (vty : Var → Ty) (rt : Ty) (lt : Option Ty) : Stmts → Bool
   | .nil => true
-  | .cons s r => wtStmt sig vty rt s && wtStmts sig vty rt r
+  | .cons s r => wtStmt sig vty rt lt s && wtStmts sig vty rt lt r
 end
 
 def wtFunc (sig : Sig) (vty : Var → Ty) (fn : Func) : Bool :=
-  wtStmts sig vty fn.ret fn.body && fn.params.all fun p => decide (vty (.loc p.1) = p.2.2)
+  wtStmts sig vty fn.ret none fn.body && fn.params.all fun p => decide (vty (.loc p.1) = p.2.2)
 
 end Ir
 end RsslVerif.Spec.Sem
